@@ -168,6 +168,15 @@ pub struct Inner {
     pub log: Vec<String>,
     pub snapshots: Vec<Snapshot>,
     pub record: bool,
+    /// read-only probes (`exists` / `head` / `list`): calls the modelled operations of the current
+    /// tree do not issue.  They are NOT numbered with the modelled calls (no fault index, no crash
+    /// point of their own: a crash before or after a read-only call leaves the image of the
+    /// neighbouring boundary), so code that merely adds such a probe is indistinguishable here;
+    /// they have their own counter, log and (oracle-only) fault schedule.
+    pub probes: u64,
+    pub probe_log: Vec<String>,
+    pub probe_faults: BTreeMap<u64, Fault>,
+    pub probe_faults_hit: u64,
     pub unmodelled: u64,
     /// previous version of every key that was overwritten (for stale reads)
     pub previous: BTreeMap<String, Vec<u8>>,
@@ -221,6 +230,10 @@ impl FaultStore {
                 log: Vec::new(),
                 snapshots: Vec::new(),
                 record: true,
+                probes: 0,
+                probe_log: Vec::new(),
+                probe_faults: BTreeMap::new(),
+                probe_faults_hit: 0,
                 unmodelled: 0,
                 previous: BTreeMap::new(),
                 read_faults: Vec::new(),
@@ -262,6 +275,22 @@ impl FaultStore {
             g.log.push(format!("{}:{}", idx, what));
         }
         g.faults.get(&idx).cloned()
+    }
+}
+
+impl FaultStore {
+    /// a read-only probe: counted separately, faultable only through `probe_faults`
+    fn probe(&self, what: String) -> bool {
+        let mut g = self.inner.lock().unwrap();
+        let k = g.probes;
+        g.probes += 1;
+        g.probe_log.push(format!("p{}:{}", k, what));
+        if g.probe_faults.contains_key(&k) {
+            g.probe_faults_hit += 1;
+            true
+        } else {
+            false
+        }
     }
 }
 
@@ -324,11 +353,10 @@ impl ObjectStore for FaultStore {
     fn exists<'a>(&'a self, key: &'a str) -> Pin<Box<dyn Future<Output = IoResult<bool>> + Send + 'a>> {
         Box::pin(async move {
             Gate { inner: self.inner.clone(), tag: self.tag }.await;
-            self.inner.lock().unwrap().unmodelled += 1;
-            match self.begin(format!("exists {}", key), None).filter(|f| !f.is_read()) {
-                None => Ok(self.inner.lock().unwrap().objects.contains_key(key)),
-                Some(_) => Err(injected()),
+            if self.probe(format!("exists {}", key)) {
+                return Err(injected());
             }
+            Ok(self.inner.lock().unwrap().objects.contains_key(key))
         })
     }
     fn delete<'a>(&'a self, key: &'a str) -> Pin<Box<dyn Future<Output = IoResult<()>> + Send + 'a>> {
@@ -346,19 +374,17 @@ impl ObjectStore for FaultStore {
     fn list<'a>(&'a self, prefix: &'a str, _t: Option<&'a str>) -> Pin<Box<dyn Future<Output = IoResult<ListResult>> + Send + 'a>> {
         Box::pin(async move {
             Gate { inner: self.inner.clone(), tag: self.tag }.await;
-            match self.begin(format!("list {}", prefix), None).filter(|f| !f.is_read()) {
-                None => {
-                    let g = self.inner.lock().unwrap();
-                    let objects = g
-                        .objects
-                        .iter()
-                        .filter(|(k, _)| k.starts_with(prefix))
-                        .map(|(k, v)| ObjectMeta { key: k.clone(), size_bytes: v.len() as u64, created_at_ms: 0, etag: None })
-                        .collect();
-                    Ok(ListResult { objects, continuation_token: None })
-                }
-                Some(_) => Err(injected()),
+            if self.probe(format!("list {}", prefix)) {
+                return Err(injected());
             }
+            let g = self.inner.lock().unwrap();
+            let objects = g
+                .objects
+                .iter()
+                .filter(|(k, _)| k.starts_with(prefix))
+                .map(|(k, v)| ObjectMeta { key: k.clone(), size_bytes: v.len() as u64, created_at_ms: 0, etag: None })
+                .collect();
+            Ok(ListResult { objects, continuation_token: None })
         })
     }
     fn rename<'a>(&'a self, from: &'a str, to: &'a str) -> Pin<Box<dyn Future<Output = IoResult<()>> + Send + 'a>> {
@@ -384,18 +410,16 @@ impl ObjectStore for FaultStore {
     fn head<'a>(&'a self, key: &'a str) -> Pin<Box<dyn Future<Output = IoResult<ObjectMeta>> + Send + 'a>> {
         Box::pin(async move {
             Gate { inner: self.inner.clone(), tag: self.tag }.await;
-            self.inner.lock().unwrap().unmodelled += 1;
-            match self.begin(format!("head {}", key), None).filter(|f| !f.is_read()) {
-                None => self
-                    .inner
-                    .lock()
-                    .unwrap()
-                    .objects
-                    .get(key)
-                    .map(|v| ObjectMeta { key: key.to_string(), size_bytes: v.len() as u64, created_at_ms: 0, etag: None })
-                    .ok_or_else(|| IoError::new(ErrorKind::NotFound, "Key not found")),
-                Some(_) => Err(injected()),
+            if self.probe(format!("head {}", key)) {
+                return Err(injected());
             }
+            self.inner
+                .lock()
+                .unwrap()
+                .objects
+                .get(key)
+                .map(|v| ObjectMeta { key: key.to_string(), size_bytes: v.len() as u64, created_at_ms: 0, etag: None })
+                .ok_or_else(|| IoError::new(ErrorKind::NotFound, "Key not found"))
         })
     }
 }
@@ -424,10 +448,19 @@ pub struct CCfg {
     pub target: u64,
     pub min: u64,
     pub maxper: u64,
-    pub cutoff: u64,
+    /// `time_source.now_millis()` of the pass
+    pub now: u64,
+    /// `tombstone_ttl`
+    pub ttl: std::time::Duration,
 }
 
-pub const TTL_MS: u64 = 1000;
+impl CCfg {
+    /// the cutoff the code's u64 arithmetic yields (`now.saturating_sub(ttl.as_millis() as u64)`),
+    /// used only to classify differences by cause
+    pub fn cutoff(&self) -> u64 {
+        self.now.saturating_sub(self.ttl.as_millis() as u64)
+    }
+}
 
 pub fn compactor(store: &FaultStore, c: &CCfg) -> Compactor<FaultStore, FixedTime> {
     let cfg = CompactionConfig {
@@ -435,7 +468,7 @@ pub fn compactor(store: &FaultStore, c: &CCfg) -> Compactor<FaultStore, FixedTim
         max_segments: 0,
         min_segments_to_compact: c.min as usize,
         max_segments_per_compaction: c.maxper as usize,
-        tombstone_ttl: std::time::Duration::from_millis(TTL_MS),
+        tombstone_ttl: c.ttl,
         compression_enabled: false,
     };
     Compactor::with_time_source(
@@ -443,7 +476,7 @@ pub fn compactor(store: &FaultStore, c: &CCfg) -> Compactor<FaultStore, FixedTim
         PREFIX.to_string(),
         ManifestManager::new(store.clone(), PREFIX),
         cfg,
-        FixedTime(c.cutoff + TTL_MS),
+        FixedTime(c.now),
     )
 }
 
@@ -539,6 +572,11 @@ pub struct Proc {
     /// read faults)
     pub lines: Vec<(String, String)>,
     pub faults: Vec<(u64, Fault)>,
+    /// first op line instead of `NEW …` (a process restarted on a crash image: `RESTART c p`)
+    pub header: Option<String>,
+    pub committed: bool,
+    /// a compaction of this process panicked (message)
+    pub panicked: Option<String>,
 }
 
 impl Proc {
@@ -563,7 +601,23 @@ impl Proc {
             text.push_str(&format!(" {} {:?}", i, f));
         }
         text.push(';');
-        Proc { store, pers, rid, text, acked: Vec::new(), pending: Vec::new(), acked_at: vec![(0, 0)], segs: Vec::new(), lines: Vec::new(), faults: faults.to_vec() }
+        Proc { store, pers, rid, text, acked: Vec::new(), pending: Vec::new(), acked_at: vec![(0, 0)], segs: Vec::new(), lines: Vec::new(), faults: faults.to_vec(), header: None, committed: false, panicked: None }
+    }
+    /// a NEW process on a store image (the crash image of call `c` of `prev`'s workload)
+    pub async fn restart(prev: &Proc, c: u64, torn: bool, img: &BTreeMap<String, Vec<u8>>) -> Proc {
+        let store = FaultStore::from_image(img);
+        let pers = StreamingPersistence::with_clock(Arc::new(store.clone()), PREFIX.to_string(), prev.rid, wb_config(), SimulatedClock::new(0))
+            .await
+            .expect("construct StreamingPersistence on the crash image");
+        {
+            let mut g = store.inner.lock().unwrap();
+            g.calls = 0;
+            g.record = true;
+            g.log.clear();
+            g.snapshots.clear();
+        }
+        let header = format!("RESTART {} {}", c, torn as u8);
+        Proc { store, pers, rid: prev.rid, text: format!("{}{};", prev.text, header), acked: Vec::new(), pending: Vec::new(), acked_at: vec![(0, 0)], segs: Vec::new(), lines: Vec::new(), faults: Vec::new(), header: Some(header), committed: false, panicked: None }
     }
     pub fn log(&mut self, _out: &mut Out, op: String, ans: String) {
         self.text.push_str(&op);
@@ -587,6 +641,10 @@ impl Proc {
         let recs = self.store.inner.lock().unwrap().read_faults.clone();
         for r in &recs {
             out.count(&format!("read-fault:{}{}:{}:{}", r.kind, if r.persistent { "(at-rest)" } else { "" }, r.object, r.outcome));
+        }
+        if self.store.inner.lock().unwrap().probe_faults_hit > 0 {
+            out.count("correspondence:oracle-only-case(fault on a read-only probe)");
+            return;
         }
         if !self.undetectable().is_empty() {
             out.count("correspondence:oracle-only-case(read fault without model counterpart)");
@@ -612,6 +670,10 @@ impl Proc {
         for (i, n) in &eff {
             line.push_str(&format!(" {} {}", i, n));
         }
+        if let Some(h) = &self.header {
+            line = h.clone();
+        }
+        self.committed = true;
         out.op(line, "ok".into());
         for (o, a) in self.lines.drain(..) {
             out.op(o, a);
@@ -662,7 +724,22 @@ impl Proc {
     }
     pub async fn compact(&mut self, out: &mut Out, c: &CCfg) -> Result<redis_sim::streaming::CompactionResult, CompactionError> {
         let mut comp = compactor(&self.store, c);
-        let r = comp.compact().await;
+        // a panic inside the pass is a crash of the code under test, not of the harness
+        let r = match tokio::spawn(async move { comp.compact().await }).await {
+            Ok(r) => r,
+            Err(e) => {
+                let msg = if e.is_panic() {
+                    let pl = e.into_panic();
+                    pl.downcast_ref::<String>().cloned().or_else(|| pl.downcast_ref::<&str>().map(|s| s.to_string())).unwrap_or_else(|| "panic".into())
+                } else {
+                    "task cancelled".to_string()
+                };
+                self.panicked = Some(msg.clone());
+                let calls = self.store.calls();
+                self.log(out, format!("COMPACT {} {} {} {} {} {}", c.target, c.min, c.maxper, c.now, c.ttl.as_millis(), 0), format!("crash calls={}", calls));
+                return Err(CompactionError::Io(IoError::new(ErrorKind::Other, format!("compaction panicked: {}", msg))));
+            }
+        };
         let calls = self.store.calls();
         let ids = |l: &Vec<redis_sim::streaming::SegmentInfo>| format!("[{}]", l.iter().map(|s| s.id.to_string()).collect::<Vec<_>>().join(","));
         let (sz, ans) = match &r {
@@ -671,7 +748,7 @@ impl Proc {
             Ok(cr) => match &cr.segment_created {
                 Some(s) => (s.size_bytes, format!("compacted {} -> {} n={} tombs={}", ids(&cr.segments_removed), s.id, s.record_count, cr.tombstones_removed)),
                 None => {
-                    if cr.deltas_before == 0 && cr.bytes_reclaimed == 0 && cr.tombstones_removed == 0 && cr.deltas_after == 0 && is_cleaned(cr) {
+                    if !cr.segments_removed.is_empty() && cr.deltas_before == 0 && cr.bytes_reclaimed == 0 && cr.tombstones_removed == 0 && cr.deltas_after == 0 && is_cleaned(cr) {
                         (0, format!("cleaned {}", ids(&cr.segments_removed)))
                     } else {
                         (0, format!("emptied {} tombs={}", ids(&cr.segments_removed), cr.tombstones_removed))
@@ -679,7 +756,7 @@ impl Proc {
                 }
             },
         };
-        self.log(out, format!("COMPACT {} {} {} {} {}", c.target, c.min, c.maxper, c.cutoff, sz), format!("{} calls={}", ans, calls));
+        self.log(out, format!("COMPACT {} {} {} {} {} {}", c.target, c.min, c.maxper, c.now, c.ttl.as_millis(), sz), format!("{} calls={}", ans, calls));
         r
     }
     pub async fn rec(&mut self, out: &mut Out) -> Result<RecoveredState, RecoveryError> {
@@ -894,6 +971,50 @@ fn embedded_footer_pair() -> (Upd, Upd, usize) {
     unreachable!()
 }
 
+/// crash variant: the process dies inside the flush that has just uploaded its segment (before or
+/// inside the manifest temp put / before the rename); a NEW process starts on that image, runs a
+/// compaction and a flush, recovery must keep every update confirmed before the crash
+async fn restart_on_orphan_images(out: &mut Out, p: &Proc, ups: &[Upd]) {
+    let snaps: Vec<Snapshot> = p.store.inner.lock().unwrap().snapshots.clone();
+    let co = coherent(ups);
+    for (c, s) in snaps.iter().enumerate() {
+        // boundaries right after a segment put of a flush: the orphan exists, the manifest does not list it
+        let after_seg_put = c > 0 && snaps[c - 1].call.starts_with("put ") && snaps[c - 1].call.contains("/segments/") && s.call.contains("manifest.json.tmp");
+        let before_rename = s.call.starts_with("rename ");
+        if !(after_seg_put || before_rename) {
+            continue;
+        }
+        for torn in [false, true] {
+            if torn && s.torn.is_none() {
+                continue;
+            }
+            let mut img = s.before.clone();
+            if torn {
+                let (k, t) = s.torn.clone().unwrap();
+                img.insert(k, t);
+            }
+            let nack = p.acked_at.iter().filter(|(at, _)| *at <= c as u64).map(|(_, n)| *n).max().unwrap_or(0);
+            let acked: Vec<Upd> = p.acked[..nack].to_vec();
+            let mut q = Proc::restart(p, c as u64, torn, &img).await;
+            let cfg = CCfg { target: 1 << 20, min: 1, maxper: 5, now: 0, ttl: std::time::Duration::ZERO };
+            let _ = q.compact(out, &cfg).await;
+            q.rec(out).await.ok();
+            q.push(out, &lww_upd("zz", b"after-restart", 999, 1, false));
+            q.flush(out).await;
+            let img2 = q.store.image();
+            let r = recover_image(&img2, q.rid).await;
+            q.lines.push(("REC".into(), show_rec(&r)));
+            out.count("pattern:restart-on-crash-image-with-orphan");
+            let mut all_acked = acked.clone();
+            all_acked.extend(q.acked.iter().cloned());
+            check_image_at(out, &q, &img2, &r, &all_acked, co, &format!("restart on the crash image of call {}{}: compact, flush", c, if torn { "+torn" } else { "" }), u64::MAX);
+            if p.committed {
+                q.commit(out);
+            }
+        }
+    }
+}
+
 fn gen_fault(rng: &mut Rng) -> Fault {
     let persistent = rng.chance(1, 6);
     match rng.below(11) {
@@ -924,6 +1045,7 @@ fn gen_workload_updates(rng: &mut Rng, n: usize) -> Vec<Upd> {
 async fn case(out: &mut Out, rng: &mut Rng, corpus: Option<&str>) {
     // a first fault-free pass is not needed: faults are placed by call index over a generated
     // workload whose call count is bounded by its length
+    let mut orphan_pattern = corpus == Some("orphan-then-compaction");
     let (script, faults): (Vec<u8>, Vec<(u64, Fault)>) = match corpus {
         // DESIGN §6.1: push 2, flush while the segment put fails
         Some("flush-put-fails") => (vec![0, 0, 1], vec![(1, Fault::Fail)]),
@@ -940,6 +1062,24 @@ async fn case(out: &mut Out, rng: &mut Rng, corpus: Option<&str>) {
         // opens and validates but decodes only d1; the fault is set after the first flush
         Some("compact-read-cut-at-record-boundary") => (vec![0, 0, 1, 0, 1, 3], vec![]),
         Some("compact-read-empty") => (vec![0, 1, 0, 1, 0, 1, 3], vec![(13, Fault::ReadEmpty { persistent: false })]),
+        // flush A ok; flush B ok; flush C: segment put ok, manifest temp put / rename FAILS → the
+        // segment stays behind as an unlisted orphan under the id the next allocation returns;
+        // then a compaction BEFORE the next successful flush (which would overwrite the orphan)
+        Some("orphan-then-compaction") => (vec![0, 1, 0, 1, 0, 1, 4], vec![(10, Fault::Fail)]),
+        None if rng.chance(1, 6) => {
+            let k = rng.range(1, 3) as usize;
+            let mut s: Vec<u8> = Vec::new();
+            for _ in 0..k {
+                s.extend_from_slice(&[0, 1]);
+            }
+            s.extend_from_slice(&[0, 1, 4]);
+            if rng.chance(1, 2) {
+                s.extend_from_slice(&[0, 1]);
+            }
+            let at = 4 * k as u64 + if rng.chance(1, 2) { 2 } else { 3 };
+            orphan_pattern = true;
+            (s, vec![(at, if rng.chance(1, 3) { Fault::Partial } else { Fault::Fail })])
+        }
         _ => {
             let n = rng.range(2, 9) as usize;
             let mut s: Vec<u8> = Vec::new();
@@ -995,14 +1135,25 @@ async fn case(out: &mut Out, rng: &mut Rng, corpus: Option<&str>) {
                     p.set_fault(9, Fault::ReadTruncAbs { len: len as u32 });
                 }
             }
+            4 => {
+                let c = CCfg { target: 1 << 20, min: 1, maxper: 5, now: 0, ttl: std::time::Duration::ZERO };
+                // is there an unlisted segment object (an orphan of a failed flush)?
+                let img = p.store.image();
+                let listed: Vec<String> = img.get(&format!("{}/manifest.json", PREFIX)).and_then(|b| serde_json::from_slice::<Manifest>(b).ok()).map(|m| m.segments.iter().map(|s| s.key.clone()).collect()).unwrap_or_default();
+                if img.keys().any(|k| k.contains("/segments/") && !listed.contains(k)) {
+                    out.count("pattern:compaction-with-orphan-segment-present");
+                }
+                let _ = p.compact(out, &c).await;
+                out.count("op:compact");
+            }
             3 => {
-                let c = CCfg { target: 1 << 20, min: 2, maxper: 5, cutoff: 0 };
+                let c = CCfg { target: 1 << 20, min: 2, maxper: 5, now: 0, ttl: std::time::Duration::ZERO };
                 let _ = p.compact(out, &c).await;
                 out.count("op:compact");
             }
             _ => {
                 // no tombstone GC here (cutoff 0): C13 owns GC
-                let c = CCfg { target: if rng.chance(1, 5) { 300 } else { 1 << 20 }, min: rng.range(1, 3), maxper: rng.range(2, 5), cutoff: 0 };
+                let c = CCfg { target: if rng.chance(1, 5) { 300 } else { 1 << 20 }, min: rng.range(1, 3), maxper: rng.range(2, 5), now: 0, ttl: std::time::Duration::ZERO };
                 let r = p.compact(out, &c).await;
                 any_err |= matches!(r, Err(CompactionError::Io(_)) | Err(CompactionError::Manifest(_)) | Err(CompactionError::Segment(_)));
                 out.count("op:compact");
@@ -1022,9 +1173,15 @@ async fn case(out: &mut Out, rng: &mut Rng, corpus: Option<&str>) {
             None => out.count("fault:beyond-last-call"),
         }
     }
-    let um = p.store.inner.lock().unwrap().unmodelled;
-    if um > 0 {
-        out.violation("C12:unmodelled-store-call", "the code under test issued exists()/head(), which the model does not have", json!({"workload": p.text}));
+    {
+        let g = p.store.inner.lock().unwrap();
+        if g.probes > 0 {
+            // not a violation: read-only probes are invisible to the correspondence
+            out.count_n("store:read-only-probes(exists/head/list)", g.probes);
+        }
+    }
+    if let Some(msg) = &p.panicked {
+        out.violation("C12:compaction:panic", &format!("Compactor::compact panicked: {}", msg), json!({"workload": p.text}));
     }
     p.rec(out).await.ok();
     crash_points(out, &mut p, &ups).await;
@@ -1051,6 +1208,10 @@ async fn case(out: &mut Out, rng: &mut Rng, corpus: Option<&str>) {
         }
     }
     p.commit(out);
+    if orphan_pattern {
+        out.count("pattern:failed-flush-orphan-then-compaction");
+        restart_on_orphan_images(out, &p, &ups).await;
+    }
     let _ = fold_real(&ups);
     out.case(&p.text, !p.acked.is_empty() && (any_err || !faults.is_empty() || p.text.contains("COMPACT")));
     out.sample(json!({"workload": p.text, "store_calls": p.store.inner.lock().unwrap().log.clone()}));
@@ -1069,6 +1230,7 @@ pub fn run(a: &Args) {
         case(&mut out, &mut Rng::new(0xC12), Some("flush-stale-manifest")).await;
         case(&mut out, &mut Rng::new(0xC12), Some("recover-manifest-digit-flip")).await;
         case(&mut out, &mut Rng::new(0xC12), Some("compact-read-cut-at-record-boundary")).await;
+        case(&mut out, &mut Rng::new(0xC12), Some("orphan-then-compaction")).await;
         for _ in 0..a.n {
             let mut r = rng.fork();
             case(&mut out, &mut r, None).await;
